@@ -81,6 +81,18 @@ func c06One(c *mc.Ctx, k c06Case) (encoded bool) {
 	}
 	payload := stream(k.Payload)
 	mcache.VerifReset()
+	snapStr, snapInt := map[string]string{}, map[uint16]string{}
+	for a, b := range p.StrInfo {
+		snapStr[a] = b
+	}
+	for a, b := range p.IntInfo {
+		snapInt[a] = b
+	}
+	defer func() {
+		if !mapsEqStr(p.StrInfo, snapStr) || !mapsEqInt(p.IntInfo, snapInt) || (p.StrInfo == nil) != (k.Str == nil && !(k.LongLen > 0 && k.LongInt < 0)) {
+			bad("params-modified", "Encode modified the caller's parameter maps (StrInfo %d -> %d entries, IntInfo %d -> %d)", len(snapStr), len(p.StrInfo), len(snapInt), len(p.IntInfo))
+		}
+	}()
 	pi := mc.Try(func() {
 		ctx := context.Background()
 		var frame []byte // header bytes as they reached the sink / target
@@ -95,12 +107,16 @@ func c06One(c *mc.Ctx, k c06Case) (encoded bool) {
 			frame = b
 			binary.BigEndian.PutUint32(frame, uint32(len(frame)+len(payload)-4))
 			all = append(append([]byte{}, frame...), payload...)
-		case "bytes", "default":
+		case "bytes", "default", "zc":
 			var w bufiox.Writer
 			var target []byte
 			var sink *EnvWriter
 			pre := 0
-			if k.Writer == "bytes" {
+			if k.Writer == "zc" {
+				// a conforming zero-copy writer: WriteBinary keeps a reference until Flush
+				sink = &EnvWriter{}
+				w = &zcWriter{sink: sink}
+			} else if k.Writer == "bytes" {
 				// initial slice shapes: spare room, no spare room, room for exactly the 14-byte meta block
 				switch (int(k.Flags) + k.Payload + len(p.StrInfo)) % 3 {
 				case 0:
@@ -301,6 +317,45 @@ func c06One(c *mc.Ctx, k c06Case) (encoded bool) {
 	return
 }
 
+type c06Fail struct {
+	Case   c06Case `json:"case"`
+	FailAt int     `json:"fail_at"`
+}
+
+func c06Connection(c *mc.Ctx) {
+	ctx := context.Background()
+	sink := &EnvWriter{}
+	w := bufiox.NewDefaultWriter(sink)
+	var lens []int
+	pi := mc.Try(func() {
+		for i := 0; i < 12; i++ {
+			p := ttheader.EncodeParam{SeqID: int32(i), StrInfo: map[string]string{"i": fmt.Sprint(i)}, IntInfo: map[uint16]string{uint16(i): stamp4(i)}}
+			before := len(sink.Got)
+			if _, err := ttheader.Encode(ctx, p, w); err != nil {
+				panic(fmt.Sprintf("frame %d: Encode: %v", i, err))
+			}
+			if err := w.Flush(); err != nil {
+				panic(fmt.Sprintf("frame %d: Flush: %v", i, err))
+			}
+			lens = append(lens, len(sink.Got)-before)
+		}
+		r := bufiox.NewDefaultReader(NewEnvReader(append([]byte{}, sink.Got...), EnvCfg{Chunk: 1}))
+		for i := 0; i < 12; i++ {
+			d, err := ttheader.Decode(ctx, r)
+			if err != nil || d.SeqID != int32(i) || d.StrInfo["i"] != fmt.Sprint(i) || d.IntInfo[uint16(i)] != stamp4(i) || d.HeaderLen != lens[i] || r.ReadLen() != lens[i] {
+				panic(fmt.Sprintf("frame %d of a 12-frame connection decoded wrongly: err=%v seq=%d HeaderLen=%d want %d", i, err, d.SeqID, d.HeaderLen, lens[i]))
+			}
+			r.Release(nil)
+		}
+	})
+	c.Eval(24)
+	if pi != nil {
+		c.Violate("connection", "C06|connection", "twelve frames through one writer and one reader: "+pi.Msg, c06Case{Writer: "connection"})
+	}
+}
+
+func stamp4(i int) string { return fmt.Sprintf("val-%04d", i*7) }
+
 func subsetsUpTo[K comparable](keys []K, vals []string, max int) []map[K]string {
 	out := []map[K]string{nil, {}}
 	for i := range keys {
@@ -334,7 +389,7 @@ func subsetsUpTo[K comparable](keys []K, vals []string, max int) []map[K]string 
 func c06Run(c *mc.Ctx) {
 	th := c.Thorough()
 	setAllocCap(64 << 20)
-	writers := []string{"tobytes", "bytes", "default"}
+	writers := []string{"tobytes", "bytes", "default", "zc"}
 	var nenc, nfail int64
 	run := func(k c06Case) {
 		if c06One(c, k) {
@@ -347,7 +402,7 @@ func c06Run(c *mc.Ctx) {
 	lo, hi := c.Span(65536)
 	small := map[string]string{"k": "v"}
 	for f := lo; f < hi; f++ {
-		run(c06Case{Flags: uint16(f), Seq: int32(f * 65537), Str: small, Int: map[uint16]string{27: "3"}, LongInt: -1, Writer: writers[f%3], Payload: int(f % 7)})
+		run(c06Case{Flags: uint16(f), Seq: int32(f * 65537), Str: small, Int: map[uint16]string{27: "3"}, LongInt: -1, Writer: writers[f%4], Payload: int(f % 7)})
 	}
 	c.DistinctN(hi - lo)
 	for p := 0; p < 256; p++ {
@@ -415,6 +470,9 @@ func c06Run(c *mc.Ctx) {
 			k := c06Case{Flags: 0x0102, Seq: 7, Proto: []uint8{0, 3, 4, 0x10, 0x11}[(si+ii)%5], Str: sm, Int: im, LongInt: -1}
 			for wi, w := range writers {
 				k.Writer, k.Payload, k.Stream = w, []int{0, 1, 5, 4096, 70000}[(si+ii+wi)%5], false
+				if w == "zc" {
+					k.Payload = 5
+				}
 				if k.Payload == 70000 && (si+ii)%9 != 0 {
 					k.Payload = 5
 				}
@@ -483,7 +541,7 @@ func c06Run(c *mc.Ctx) {
 			k.Flags, k.Seq, k.LongKey, k.LongInt, k.LongLen = 8, 99, sh.longKey, sh.longInt, target-sh.fixed
 			c.Distinct("limit", sh.name, target)
 			for wi, w := range writers {
-				k.Writer, k.Payload, k.Stream = w, []int{0, 5, 70000}[wi], false
+				k.Writer, k.Payload, k.Stream = w, []int{0, 5, 70000, 1}[wi], false
 				run(k)
 			}
 			k.Writer, k.Payload, k.Stream, k.Env = "default", 1, true, EnvCfg{Chunk: 4097, ErrWithLast: true}
@@ -493,6 +551,55 @@ func c06Run(c *mc.Ctx) {
 				run(k)
 			}
 		}
+	}
+	// (4) every well-known key of the transport (the decoder may treat them specially), alone and all together
+	wk := []string{ttheader.HeaderIDLServiceName, ttheader.HeaderTransRemoteAddr, ttheader.HeaderTransToCluster, ttheader.HeaderTransToIDC, ttheader.HeaderTransPerfTConnStart, ttheader.HeaderTransPerfTConnEnd, ttheader.HeaderTransPerfTSendStart, ttheader.HeaderTransPerfTRecvStart, ttheader.HeaderTransPerfTRecvEnd, ttheader.HeaderConnectionReadyToReset, ttheader.HeaderProcessAtTime, ttheader.GDPRToken}
+	allStr, allInt := map[string]string{}, map[uint16]string{}
+	for i, key := range wk {
+		allStr[key] = fmt.Sprintf("value-of-%d", i)
+		for _, w := range writers {
+			if c.Mine() {
+				run(c06Case{Flags: 1, Seq: int32(i), Str: map[string]string{key: "v" + key}, LongInt: -1, Writer: w, Payload: 2})
+			}
+		}
+	}
+	for key := uint16(0); key <= ttheader.FrameType+1; key++ {
+		allInt[key] = fmt.Sprintf("i%d", key)
+		if c.Mine() {
+			run(c06Case{Seq: int32(key), Int: map[uint16]string{key: fmt.Sprint(key)}, LongInt: -1, Writer: writers[int(key)%4], Payload: 1})
+		}
+	}
+	for _, w := range writers {
+		if c.Mine() {
+			run(c06Case{Flags: 2, Seq: 77, Str: allStr, Int: allInt, LongInt: -1, Writer: w, Payload: 9})
+			run(c06Case{Flags: 2, Seq: 78, Str: allStr, Int: allInt, LongInt: -1, Writer: w, Payload: 9, Stream: true, Env: EnvCfg{Chunk: 7, AfterErr: 1}})
+		}
+	}
+	c.Done("every well-known string key and int key 0..FrameType+1, alone and all together")
+	// (5) a writer that fails at its k-th operation, for every k: Encode returns an error (or the frame is fine), never panics, never modifies the parameters
+	if c.Mine() {
+		for _, k := range []c06Case{{Flags: 2, Seq: 1, Str: map[string]string{ttheader.GDPRToken: "tok", "k1": "v1", "k2": "v2"}, Int: map[uint16]string{1: "a", 2: "b"}}, {Seq: 2, Int: map[uint16]string{9: "x"}}, {Seq: 3}} {
+			p := k.params()
+			for failAt := 1; failAt <= 40; failAt++ {
+				c.Eval(1)
+				before := fmt.Sprint(len(p.StrInfo), len(p.IntInfo), p.StrInfo[ttheader.GDPRToken])
+				fw := &failWriter{failAt: failAt}
+				fw.sink = &EnvWriter{}
+				var err error
+				pi := mc.Try(func() { _, err = ttheader.Encode(context.Background(), p, fw) })
+				after := fmt.Sprint(len(p.StrInfo), len(p.IntInfo), p.StrInfo[ttheader.GDPRToken])
+				if pi != nil || before != after || (err == nil && fw.ops >= failAt) {
+					c.Violate("failwriter", "C06|failing-writer", fmt.Sprintf("Encode into a writer that fails at its operation #%d: panic=%v err=%v parameters before/after %q/%q", failAt, pi != nil, err, before, after), c06Fail{Case: k, FailAt: failAt})
+					break
+				}
+			}
+		}
+		c.Done("Encode into a writer failing at its k-th Malloc/WriteBinary for every k <= 40, three parameter sets")
+	}
+	// (6) twelve frames through ONE writer and ONE reader (a long-lived connection)
+	if c.Mine() {
+		c06Connection(c)
+		c.Done("12 frames through one writer (Flush after each) and one reader (Release after each)")
 	}
 	c.Count("encodes-succeeded", nenc)
 	c.Count("encodes-failed-or-skipped", nfail)
@@ -512,6 +619,25 @@ func init() {
 		Run:           c06Run,
 		UnownedNondet: func(sub string, raw json.RawMessage) bool { return true },
 		Replay: func(c *mc.Ctx, sub string, raw json.RawMessage) {
+			if sub == "connection" {
+				c06Connection(c)
+				return
+			}
+			if sub == "failwriter" {
+				replayAs(raw, func(f c06Fail) {
+					p := f.Case.params()
+					fw := &failWriter{failAt: f.FailAt}
+					fw.sink = &EnvWriter{}
+					before := fmt.Sprint(len(p.StrInfo), len(p.IntInfo), p.StrInfo[ttheader.GDPRToken])
+					var err error
+					pi := mc.Try(func() { _, err = ttheader.Encode(context.Background(), p, fw) })
+					after := fmt.Sprint(len(p.StrInfo), len(p.IntInfo), p.StrInfo[ttheader.GDPRToken])
+					if pi != nil || before != after || (err == nil && fw.ops >= f.FailAt) {
+						c.Violate("failwriter", "C06|failing-writer", fmt.Sprintf("Encode into a writer that fails at its operation #%d: panic=%v err=%v parameters before/after %q/%q", f.FailAt, pi != nil, err, before, after), f)
+					}
+				})
+				return
+			}
 			replayAs(raw, func(k c06Case) {
 				setAllocCap(64 << 20)
 				withEnvChoices(k.EnvChoices, func() { c06One(c, k) })
